@@ -452,6 +452,30 @@ fn random_docs(fi: usize, n: usize, seed: u64, corpus: &Corpus, part: &mut Part)
     }
 }
 
+/// Long trigger-free documents: a fragment repeated 1 300 times between a head and a tail that leave
+/// something open across the repetition (delimiter stack, bracket stack, containers). Limits, caps and
+/// look-back bounds that depend on which features are on only show at such lengths.
+fn long_docs(fi: usize, part: &mut Part) {
+    let f = &FEATURES[fi];
+    const FRAGS: &[&str] = &[
+        " _a", " *a", "*a **b ", "a* ", "[a ", "[a](u) ", "`a ", "<b> ", "a@b.c ", "www.x.y ", "$a ", "~a ", "^a ", "\\* ", "&amp; ", "![a", "\"a\" ", "a--b ", "a\n", "> a\n",
+        "- a\n", "1. a\n", "|a|b|\n", "a\n\n", "# a\n", "[^a] ", ": a\n", "||a ", "== ",
+    ];
+    const WRAPS: &[(&str, &str)] = &[("", "\n"), ("*foo", " bar*\n"), ("[", "](u)\n"), ("**x __y", " y__ x**\n"), ("> ", "\n")];
+    for frag in FRAGS {
+        for (head, tail) in WRAPS {
+            let doc = strip_triggers(f, &format!("{}{}{}", head, frag.repeat(1300), tail));
+            if doc.trim().len() < 1300 {
+                continue;
+            }
+            for base in [Opts::default(), dense_base()] {
+                part.check(fi, &base, &doc, "long");
+                part.bump(&format!("long/{}", f.name), 1);
+            }
+        }
+    }
+}
+
 /// Documents that spell F's trigger characters as character references: trigger-free byte-wise.
 fn entity_docs(fi: usize, part: &mut Part) {
     let f = &FEATURES[fi];
@@ -762,6 +786,7 @@ pub fn run(cfg: &Cfg, rep: &mut Report) {
                 let mut p = Part::default();
                 exhaustive_short(fi, bases, shorts, &mut p);
                 entity_docs(fi, &mut p);
+                long_docs(fi, &mut p);
                 random_docs(fi, n_random, seed, corpus, &mut p);
                 p
             }));
